@@ -36,7 +36,8 @@ static int n_tasks(void) {
 
 static void on_sig(int sig) {
     if (g_out) {
-        fprintf(g_out, "{\"ev\":\"%s\",\"sig\":%d,\"call\":\"%s\",\"idx\":%d}\n", sig == SIGALRM ? "Blocked" : "Crash", sig, g_cur, g_idx);
+        fprintf(g_out, "{\"ev\":\"%s\",\"sig\":%d,\"call\":\"%s\",\"idx\":%d,\"site\":\"%p\"}\n", sig == SIGALRM ? "Blocked" : "Crash", sig, g_cur, g_idx,
+                vrt_fail_site());
         fflush(g_out);
     }
     _exit(sig == SIGALRM ? 124 : 139);
@@ -195,9 +196,10 @@ int main(int argc, char **argv) {
         alarm(0);
         long cnt   = (idx == fail_idx || idx == count_idx) ? vrt_fail_count() : -1;
         int  fired = idx == fail_idx ? vrt_fail_fired() : 0;
+        void *site = idx == fail_idx ? vrt_fail_site() : NULL;
         if (idx == fail_idx || idx == count_idx) vrt_fail_at(0);
-        fprintf(g_out, "{\"ev\":\"Call\",\"idx\":%d,\"call\":\"%s\",\"rc\":%d,\"class\":\"%s\",\"n\":%d,\"fallible\":%ld,\"fired\":%d,\"handle\":%d}\n", idx, c,
-                (int)rc, cls(rc), extra, cnt, fired, H != NULL);
+        fprintf(g_out, "{\"ev\":\"Call\",\"idx\":%d,\"call\":\"%s\",\"rc\":%d,\"class\":\"%s\",\"n\":%d,\"fallible\":%ld,\"fired\":%d,\"handle\":%d,\"site\":\"%p\"}\n", idx, c,
+                (int)rc, cls(rc), extra, cnt, fired, H != NULL, site);
         fflush(g_out);
         if (!strcmp(c, "init_handle(&h,cfg)") && rc != EB_ErrorNone) H = NULL;
     }
